@@ -13,8 +13,9 @@ import itertools, os, re
 from vlib.proto import hexs, unhex
 
 LEAN_TARGETS = ["LyModel.Props.C11", "LyModel.Props.C11Range"]
-AUDIT = "Audit/C11.lean"
+AUDIT = ["Audit/C11.lean", "Audit/C11Fn.lean"]
 GENERATED = ["Consts", "IffSrc"]
+LEAN_TARGETS += ["LyModel.Props.C11Fn"]; GENERATED += ["FnIff"]     # functions translated from the C source (tools/c2lean.py), bridged in lean/LyModel/Bridge
 ASSUMPTIONS = [
     "if-feature: `lysp_feature_find` (prefix resolution + lookup by name) is an abstract function `lookup` in the theorems; the driver instantiates it with the module/import table of the request",
     "if-feature theorems are about YANG 1.1 modules (the YANG 1.0 `checkversion` path is covered by the correspondence only); feature names in the grammar AST are any blank/parenthesis-free words other than the literal keywords not/and/or",
@@ -474,6 +475,7 @@ def run_iff(cx):
 
 
 def run(cx):
+    from checks import fncomp; fncomp.run_fn(cx, ['iff'])
     run_iff(cx)
     from checks import c11range, c11meta
     c11range.run_range(cx, model_first, PRED)
